@@ -47,6 +47,165 @@ pub struct IftCase {
     /// when set, `IFT ` is a generated format-2 map whose entries form a deep child-index DAG
     #[serde(default)]
     pub dag: Option<DagSpec>,
+    /// byte edits of tables of the BASE font (table chosen by index among glyf/loca/gvar/CFF /CFF2/head/maxp/hmtx, when present)
+    #[serde(default)]
+    pub base_edits: Vec<(u8, Vec<Edit>)>,
+    /// structure-aware tweaks of the base font's glyph offset arrays (the arrays glyph-keyed patching rewrites)
+    #[serde(default)]
+    pub offset_tweaks: Vec<OffsetTweak>,
+    /// make the pieces fit together the way the repository's own tests do: the charstrings-offset placeholders of the mapping
+    /// fixtures (456 / 789) are replaced by the real CharStrings offsets of the CFF / CFF2 base font, and a `CFF ` glyph patch
+    /// is retargeted to `CFF2` for the CFF2 base — so that glyph-keyed patching of CFF data gets past its consistency checks
+    #[serde(default)]
+    pub coherent: bool,
+    /// generated glyph-keyed patches, valid by construction for the base font (used round-robin instead of the patch
+    /// fixtures when non-empty; compatibility ids are rewritten like for fixtures)
+    #[serde(default)]
+    pub gen_patches: Vec<GkPatch>,
+}
+
+/// a glyph-keyed patch: `gids` (taken modulo the base font's glyph count, sorted, de-duplicated), the glyph-carrying tables
+/// of the base font selected by `tables` bits (0 glyf, 1 gvar, 2 CFF , 3 CFF2; absent ones are dropped, at least one kept),
+/// per (table, glyph) data of `lens[k % lens.len()]` bytes, 16- or 24-bit glyph ids, optionally a hostile twist
+#[derive(Clone, Debug, Serialize, Deserialize, PartialEq)]
+pub struct GkPatch {
+    pub gids: Vec<u16>,
+    pub tables: u8,
+    pub lens: Vec<u8>,
+    pub wide: bool,
+    /// 0 valid; 1 unsorted gids; 2 duplicate table tag; 3 last offset short; 4 offsets descending at one place; 5 unknown table tag added
+    pub twist: u8,
+    pub fill: u8,
+}
+
+pub fn gk_patch_bytes(p: &GkPatch, present: &[[u8; 4]], num_glyphs: u32) -> Vec<u8> {
+    let n = num_glyphs.max(1);
+    let mut gids: Vec<u32> = p.gids.iter().map(|g| *g as u32 % n).collect();
+    gids.sort();
+    gids.dedup();
+    if p.twist == 1 && gids.len() >= 2 {
+        gids.swap(0, 1);
+    }
+    let cand = [*b"glyf", *b"gvar", *b"CFF ", *b"CFF2"];
+    let mut tables: Vec<[u8; 4]> = (0..4).filter(|i| p.tables & (1 << i) != 0 && present.contains(&cand[*i])).map(|i| cand[i]).collect();
+    if tables.is_empty() {
+        if let Some(t) = cand.iter().find(|t| present.contains(t)) {
+            tables.push(*t);
+        }
+    }
+    if p.twist == 2 {
+        if let Some(t) = tables.first().copied() {
+            tables.push(t);
+        }
+    }
+    if p.twist == 5 {
+        tables.push(*b"zzzz");
+    }
+    let mut payload: Vec<u8> = vec![];
+    payload.extend_from_slice(&(gids.len() as u32).to_be_bytes());
+    payload.push(tables.len() as u8);
+    for g in &gids {
+        if p.wide {
+            payload.extend_from_slice(&g.to_be_bytes()[1..]);
+        } else {
+            payload.extend_from_slice(&(*g as u16).to_be_bytes());
+        }
+    }
+    for t in &tables {
+        payload.extend_from_slice(t);
+    }
+    let n_off = gids.len() * tables.len() + 1;
+    let data_start = payload.len() + 4 * n_off;
+    let mut offs: Vec<u32> = vec![];
+    let mut data: Vec<u8> = vec![];
+    for k in 0..gids.len() * tables.len() {
+        offs.push((data_start + data.len()) as u32);
+        let len = if p.lens.is_empty() { 3 } else { p.lens[k % p.lens.len()] as usize };
+        data.extend((0..len).map(|i| p.fill.wrapping_add((k * 7 + i) as u8)));
+    }
+    offs.push((data_start + data.len()) as u32);
+    if p.twist == 3 {
+        if let Some(l) = offs.last_mut() {
+            *l = l.wrapping_sub(2);
+        }
+    }
+    if p.twist == 4 && offs.len() >= 3 {
+        let m = offs.len() / 2;
+        offs.swap(m, m - 1);
+    }
+    for o in &offs {
+        payload.extend_from_slice(&o.to_be_bytes());
+    }
+    payload.extend_from_slice(&data);
+    let mut v = b"ifgk".to_vec();
+    v.extend_from_slice(&0u32.to_be_bytes());
+    v.push(p.wide as u8);
+    for x in [6u32, 7, 8, 9] {
+        v.extend_from_slice(&x.to_be_bytes());
+    }
+    v.extend_from_slice(&(payload.len() as u32).to_be_bytes());
+    v.extend_from_slice(&payload);
+    v
+}
+
+/// add `delta` to the entry `from_end` positions before the end of: 0 loca, 1 gvar's glyph variation data offsets,
+/// 2 the CharStrings INDEX offset array of CFF / CFF2 (located through the Top DICT)
+#[derive(Clone, Debug, Serialize, Deserialize, PartialEq)]
+pub struct OffsetTweak {
+    pub array: u8,
+    pub from_end: u8,
+    pub delta: i32,
+}
+
+fn be_read(d: &[u8], pos: usize, size: usize) -> Option<u32> {
+    let b = d.get(pos..pos.checked_add(size)?)?;
+    Some(b.iter().fold(0u32, |a, x| (a << 8) | *x as u32))
+}
+fn be_write(d: &mut [u8], pos: usize, size: usize, v: u32) {
+    for i in 0..size {
+        d[pos + i] = (v >> (8 * (size - 1 - i))) as u8;
+    }
+}
+/// (position of entry 0, entry size, entry count) of the offset array named by `array` inside `table`
+fn offset_array(array: u8, tag: &[u8; 4], table: &[u8], head: Option<&[u8]>) -> Option<(usize, usize, usize)> {
+    match (array % 3, tag) {
+        (0, b"loca") => {
+            let long = head.and_then(|h| be_read(h, 50, 2)).unwrap_or(0) != 0;
+            let size = if long { 4 } else { 2 };
+            Some((0, size, table.len() / size))
+        }
+        (1, b"gvar") => {
+            let count = be_read(table, 12, 2)? as usize;
+            let long = be_read(table, 14, 2)? & 1 != 0;
+            Some((20, if long { 4 } else { 2 }, count + 1))
+        }
+        (2, b"CFF ") => {
+            use read_fonts::tables::postscript::dict;
+            use read_fonts::FontRead;
+            let cff = read_fonts::tables::cff::Cff::read(read_fonts::FontData::new(table)).ok()?;
+            let top = cff.top_dicts().get(0).ok()?;
+            let off = dict::entries(top, None).filter_map(|e| e.ok()).find_map(|e| match e {
+                dict::Entry::CharstringsOffset(o) => Some(o),
+                _ => None,
+            })?;
+            let count = be_read(table, off, 2)? as usize;
+            let size = be_read(table, off + 2, 1)? as usize;
+            (1..=4).contains(&size).then_some((off + 3, size, count + 1))
+        }
+        (2, b"CFF2") => {
+            use read_fonts::tables::postscript::dict;
+            use read_fonts::FontRead;
+            let cff = read_fonts::tables::cff2::Cff2::read(read_fonts::FontData::new(table)).ok()?;
+            let off = dict::entries(cff.top_dict_data(), None).filter_map(|e| e.ok()).find_map(|e| match e {
+                dict::Entry::CharstringsOffset(o) => Some(o),
+                _ => None,
+            })?;
+            let count = be_read(table, off, 4)? as usize;
+            let size = be_read(table, off + 4, 1)? as usize;
+            (1..=4).contains(&size).then_some((off + 5, size, count + 1))
+        }
+        _ => None,
+    }
 }
 
 /// entries 0 and 1 carry code points; entry k >= 2 has child indices {k-1-a, k-1-b} (a, b from `fan`, cycled) with a
@@ -175,6 +334,30 @@ pub fn base_tables(base: u8) -> Vec<([u8; 4], Vec<u8>)> {
 pub fn build_font(ix: &CorpusIndex, c: &IftCase) -> Vec<u8> {
     let mut tables = base_tables(c.base);
     tables.retain(|t| &t.0 != b"IFT " && &t.0 != b"IFTX");
+    // hostile BASE font: byte edits of the glyph-carrying tables and tweaks of their offset arrays
+    const EDITABLE: [&[u8; 4]; 8] = [b"glyf", b"loca", b"gvar", b"CFF ", b"CFF2", b"head", b"maxp", b"hmtx"];
+    for (which, edits) in &c.base_edits {
+        let present: Vec<usize> = (0..tables.len()).filter(|i| EDITABLE.contains(&&tables[*i].0)).collect();
+        if let Some(i) = present.get(*which as usize % present.len().max(1)) {
+            ix.apply_edits(&mut tables[*i].1, edits);
+        }
+    }
+    for t in &c.offset_tweaks {
+        let head: Option<Vec<u8>> = tables.iter().find(|x| &x.0 == b"head").map(|x| x.1.clone());
+        for (tag, data) in tables.iter_mut() {
+            if let Some((pos0, size, n)) = offset_array(t.array, tag, data, head.as_deref()) {
+                if n == 0 {
+                    continue;
+                }
+                let k = n - 1 - (t.from_end as usize).min(n - 1);
+                let pos = pos0 + k * size;
+                if let Some(v) = be_read(data, pos, size) {
+                    // (short loca / short gvar entries hold offset / 2: the tweak applies to the stored value)
+                    be_write(data, pos, size, v.wrapping_add(t.delta as u32));
+                }
+            }
+        }
+    }
     if let Some(d) = &c.dag {
         tables.push((*b"IFT ", dag_map(d)));
     }
@@ -184,6 +367,20 @@ pub fn build_font(ix: &CorpusIndex, c: &IftCase) -> Vec<u8> {
         }
         if let Some((fi, edits)) = spec {
             let mut d = map_fixture(*fi);
+            if c.coherent {
+                for (placeholder, real) in [(456u32, fx::CFF_FONT_CHARSTRINGS_OFFSET), (789u32, fx::CFF2_FONT_CHARSTRINGS_OFFSET)] {
+                    let pat = placeholder.to_be_bytes();
+                    let mut i = 0;
+                    while i + 4 <= d.len() {
+                        if d[i..i + 4] == pat {
+                            d[i..i + 4].copy_from_slice(&real.to_be_bytes());
+                            i += 4;
+                        } else {
+                            i += 1;
+                        }
+                    }
+                }
+            }
             ix.apply_edits(&mut d, edits);
             tables.push((tag, d));
         }
@@ -304,7 +501,20 @@ pub fn drive(ix: &CorpusIndex, c: &IftCase) -> IftOutcome {
                     (true, Some((_, false))) => *fi % 2,
                     _ => *fi,
                 };
-                let mut b = patch_fixture(fi);
+                // coherent CFF cases: glyph-keyed fixtures are replaced by the CFF glyph patch (retargeted to CFF2 for that base)
+                let fi = if c.coherent && c.base % 4 >= 2 && fi >= 2 { 7 } else { fi };
+                let mut b = if !c.gen_patches.is_empty() && fi >= 2 {
+                    let present: Vec<[u8; 4]> = base_tables(c.base).iter().map(|t| t.0).collect();
+                    let ng = base_tables(c.base).iter().find(|t| &t.0 == b"maxp").and_then(|t| be_read(&t.1, 4, 2)).unwrap_or(1);
+                    gk_patch_bytes(&c.gen_patches[(i + round as usize) % c.gen_patches.len()], &present, ng)
+                } else {
+                    patch_fixture(fi)
+                };
+                if c.coherent && c.base % 4 == 3 && fi == 7 {
+                    if let Some(p) = b.windows(4).position(|w| w == b"CFF ") {
+                        b[p..p + 4].copy_from_slice(b"CFF2");
+                    }
+                }
                 ix.apply_edits(&mut b, edits);
                 if *fix_compat {
                     if let Some((id, _)) = compat.get(u) {
